@@ -11,7 +11,7 @@ class HarnessBug(Exception):
     pass
 
 
-def run_mux(program, events, end='complete', monitor=True, fail=None, notaps=False, items=None, extra=None):
+def run_mux(program, events, end='complete', monitor=True, fail=None, notaps=False, items=None, extra=None, driver='hot'):
     """Subject -> with_memory_store([tap, *program with taps]) -> final."""
     install_monitor()
     ctx = Ctx(monitor=monitor, fail=fail)
@@ -27,7 +27,7 @@ def run_mux(program, events, end='complete', monitor=True, fail=None, notaps=Fal
     def mk(subject):
         return subject.pipe(rs.state.with_store(manager, pipeline=build(program, ctx, 'mux', 'P')))
     if items is None:
-        final, escaped = drive_hot(ctx, mk, events, end, mk_item=mk_rec)
+        final, escaped = drive_hot(ctx, mk, events, end, mk_item=mk_rec, driver=driver)
     else:
         final, escaped = drive_hot(ctx, mk, items, end)
     if escaped is not None and innermost_in_verif(escaped):
